@@ -22,7 +22,11 @@ CONSTANTS Procs,      \* process ids 1..P
           Fids,       \* fids
           InitBound,  \* fids bound before the concurrent phase
           OpSet,      \* candidate operations (records [k, f, nf, out])
-          FixAttach   \* TRUE: Attach unlocks afid on every path (D9 repaired)
+          FixAttach,  \* TRUE: Attach unlocks afid on every path (D9 repaired)
+          Literal,    \* TRUE: the property's literal client discipline (no fid is allocated by two requests at once);
+                      \*       FALSE: additionally a fid being allocated is not named by any other in-flight request
+          FixDel      \* TRUE: clunk/remove look up and lock the fid like every other operation and unbind it
+                      \*       under the lock; FALSE (pinned commit): LoadAndDelete first, Lock afterwards (D16)
 
 VARIABLES refs,   \* fid -> ref id (0: absent)
           ref,    \* ref id -> [lk: owner process or 0, ent: entry id or 0, file: BOOLEAN]
@@ -42,8 +46,11 @@ Alloc(o) == CASE o.k \in {"clone", "walkfail"} -> {o.nf} [] o.k \in {"attach", "
 Uses(o) == IF o.k \in {"clone", "walkfail", "attachaf"} THEN {o.f, o.nf} ELSE {o.f}
 
 \* assignments of one operation per process obeying the client discipline
+\* client discipline: with FixDel the property's literal one (no fid is allocated by two requests at once);
+\* for the pinned commit additionally "a fid being allocated is not named by another request"
 Assignments == {a \in [Procs -> OpSet] :
-                  \A p, q \in Procs : p # q => Alloc(a[p]) \cap Uses(a[q]) = {}}
+                  \A p, q \in Procs : p # q => IF Literal THEN Alloc(a[p]) \cap Alloc(a[q]) = {}
+                                                         ELSE Alloc(a[p]) \cap Uses(a[q]) = {}}
 
 Init ==
   /\ \E a \in Assignments : pr = [p \in Procs |-> [op |-> a[p], pc |-> "start", r |-> 0, r2 |-> 0, res |-> "?"]]
@@ -63,7 +70,7 @@ Start(p) ==
   /\ hist' = Append(hist, [e |-> "inv", p |-> p, res |-> ""])
   /\ LET o == pr[p].op IN
      Set(p, CASE o.k \in {"stat", "clone", "walkfail"} -> "lookup"
-              [] o.k \in {"clunk"} -> "del"
+              [] o.k \in {"clunk"} -> IF FixDel THEN "lookup" ELSE "del"
               [] o.k = "attachaf" -> "aflookup"
               [] OTHER -> "newref")
   /\ UNCHANGED <<refs, ref, nref, nent, inFS, overlap>>
@@ -87,7 +94,7 @@ Lock(p) ==
                /\ Done(p, "unknownfid") /\ UNCHANGED <<refs, ref, nref, nent, inFS, overlap>>
           ELSE /\ ref' = [ref EXCEPT ![r].lk = p]
                /\ Set(p, CASE pr[p].pc = "aflock" -> "afcheck"
-                           [] pr[p].op.k = "stat" -> "fsenter"
+                           [] pr[p].op.k \in {"stat", "clunk"} -> "fsenter"
                            [] OTHER -> "newref")
                /\ UNCHANGED <<refs, nref, nent, inFS, hist, overlap>>
 
@@ -154,7 +161,9 @@ FSExit(p) ==
      /\ CASE o.k = "stat" ->
                /\ ref' = [ref EXCEPT ![r].lk = 0] /\ Done(p, "") /\ UNCHANGED <<refs, nent>>
           [] o.k = "clunk" ->
-               /\ ref' = [ref EXCEPT ![r] = [lk |-> 0, ent |-> 0, file |-> FALSE]] /\ Done(p, "") /\ UNCHANGED <<refs, nent>>
+               /\ ref' = [ref EXCEPT ![r] = [lk |-> 0, ent |-> 0, file |-> FALSE]] /\ Done(p, "")
+               /\ refs' = IF FixDel /\ refs[o.f] = r THEN [refs EXCEPT ![o.f] = 0] ELSE refs
+               /\ UNCHANGED nent
           [] o.k = "clone" ->       \* bind the reserved fid, unlock both
                /\ nent' = nent + 1
                /\ ref' = [ref EXCEPT ![r].lk = 0, ![r2] = [lk |-> 0, ent |-> nent + 1, file |-> FALSE]]
@@ -216,5 +225,5 @@ Linearizable ==
 \* ---- operation sets for the configs
 OpsSmall == { Op("stat", 0, 0, ""), Op("clunk", 0, 0, ""), Op("clone", 0, 2, ""), Op("walkfail", 0, 2, ""),
               Op("attach", 2, 0, ""), Op("attachfail", 3, 0, ""), Op("attachaf", 3, 0, ""), Op("stat", 2, 0, ""),
-              Op("clunk", 1, 0, ""), Op("clone", 1, 3, ""), Op("clone", 0, 1, "") }
+              Op("clunk", 1, 0, ""), Op("clone", 1, 3, ""), Op("clone", 0, 1, ""), Op("clunk", 2, 0, "") }
 =============================================================================
